@@ -209,6 +209,15 @@ func RunBehaviour(idx int, c *Case, seed int64, emit func(*Line)) {
 		}
 	}
 	l := &Line{K: "build", Beh: idx, Act: EpochLimbs(act), Cfg: *cfg}
+	seq := c.Seq
+	if len(seq) > 0 && (idx+int(seed%3))%3 == 0 {
+		// a node's notifier tells every new subscriber the current epoch at once: the first notification of this behaviour arrives
+		// DURING the build (recorded in the build line's "e"), the rest afterwards
+		first := Epoch(seq[0])
+		sh.StartEpoch = &first
+		l.E = EpochLimbs(first)
+		seq = seq[1:]
+	}
 	guard(l, func() {
 		if err := sh.BuildContainer(world.StdGas(cfg.GasV), dns, cfg.Enable, act); err != nil {
 			l.Res, l.Err = "err", err.Error()
@@ -221,7 +230,7 @@ func RunBehaviour(idx int, c *Case, seed int64, emit func(*Line)) {
 	if l.Res != "ok" {
 		return
 	}
-	for i, e := range c.Seq {
+	for i, e := range seq {
 		ep := Epoch(e)
 		cl := &Line{K: "confirm", Beh: idx, Act: EpochLimbs(act), E: EpochLimbs(ep), Cfg: *cfg, TS: stamp(idx, seed, i)}
 		if i < len(c.TS) {
